@@ -182,6 +182,8 @@ class C15(CoordMixin, Prop):
         prev = None
         strategy = "priority"
         started = {}            # op -> virtual time of its `start` line, as the harness saw it (never read back from the context)
+        given = {}              # op -> priority given at its `start` line; trusted until a boost may have raised priorities
+        boosted = False
         for idx, (line, o, ex) in enumerate(zip(case["lines"], obs, extra)):
             t = line.split()
             st = ex.get("state")
@@ -196,12 +198,17 @@ class C15(CoordMixin, Prop):
                 strategy = t[4]
                 pend = set()
                 started = {}
+                given = {}
+                boosted = False
+            if k in ("boost", "maint", "exec", "cell"):
+                boosted = True      # priority inheritance may have raised priorities (exec / cell: run_maintenance from inside)
             if k == "setwd" and len(t) == 5:
                 strategy = t[4]
             if k in ("start", "exec", "cell") and prev is not None and len(t) > 1 and t[1] in prev["active"]:
                 break                                   # id reuse: outside the quantifier
             if k == "start" and len(t) == 3 and t[1] in st["active"]:
                 started[t[1]] = info.get("now", 0)
+                given[t[1]] = int(t[2])
             if k in ("exec", "cell", "shutdown"):
                 trig_at = idx if trig_at is None else trig_at       # outside the fragment covered by c15_exact_partial
             # ---- what an acquisition / release really did, read from the locks themselves (ResourceLock.owner), not from
@@ -255,7 +262,8 @@ class C15(CoordMixin, Prop):
                     # "oldest" = started first: the start times are the harness's own record of the history (a context's
                     # created_at is only what the code remembers of it); boosts do not touch them, so `maint` is judged too
                     if k == "watchdog" or strategy == "oldest":
-                        keyf = (lambda a: prev["active"][a]["prio"]) if strategy == "priority" else \
+                        keyf = (lambda a: prev["active"][a]["prio"] if boosted else given.get(a, prev["active"][a]["prio"])) \
+                            if strategy == "priority" else \
                             (lambda a: started.get(a, prev["active"][a]["created"]))
                         best = min(keyf(a) for a in members)
                         if not any(a in killed and keyf(a) == best for a in members):
